@@ -5111,6 +5111,23 @@ func extraPassthroughBytesVerbatim(c *Ctx, r *Report, rule string) {
 				if (ci.Pkg == "io" || ci.Pkg == "io/ioutil") && ci.Name == "ReadAll" {
 					return true, ""
 				}
+				// a repo helper that does the read (`body, status, err := bufferTranslationBody(r.Body, max)`): every
+				// non-nil slice it hands back must itself be the slice as read
+				if h := call.Call.StaticCallee(); h != nil && h.Blocks != nil && c.inRepo(h) {
+					some := false
+					for _, ret := range returnsOf(h) {
+						if x.Index >= len(ret.Results) || isNilConst(ret.Results[x.Index]) {
+							continue
+						}
+						some = true
+						if ok, w := asRead(ret.Results[x.Index], depth-1, seen); !ok {
+							return false, w + " (inside " + cshort(h) + ")"
+						}
+					}
+					if some {
+						return true, ""
+					}
+				}
 				return false, "the result of " + ci.String()
 			}
 		case *ssa.Phi:
@@ -9003,20 +9020,20 @@ func extraC12StrictAllLevels(c *Ctx, r *Report) {
 			continue
 		}
 		for _, f := range withHelpers(f0, 2) {
-		eachInstr(f, func(in ssa.Instruction) {
-			cc := getCall(in)
-			if cc == nil {
-				return
-			}
-			ci := describeCall(cc)
-			if ci.Name == "Decode" && ci.Recv == "Decoder" && ci.Pkg == "encoding/json" && len(cc.Args) == 2 {
-				v := cc.Args[1]
-				if mi, ok := v.(*ssa.MakeInterface); ok {
-					v = mi.X
+			eachInstr(f, func(in ssa.Instruction) {
+				cc := getCall(in)
+				if cc == nil {
+					return
 				}
-				root = deref(v.Type())
-			}
-		})
+				ci := describeCall(cc)
+				if ci.Name == "Decode" && ci.Recv == "Decoder" && ci.Pkg == "encoding/json" && len(cc.Args) == 2 {
+					v := cc.Args[1]
+					if mi, ok := v.(*ssa.MakeInterface); ok {
+						v = mi.X
+					}
+					root = deref(v.Type())
+				}
+			})
 		}
 	}
 	if root == nil {
@@ -11553,7 +11570,6 @@ func extraRemoveTellsUnifier(c *Ctx, r *Report, rule string) {
 		Old: "	r.forgetEndpointInUnifierLocked(ctx, endpointURL)\n\n	return nil\n", New: "	return nil\n"})
 }
 
-
 // findLineHandler: the stream translator's per-line handler, structurally — the function of the Anthropic translator
 // package that tests its string parameter for the "data:" prefix.
 func findLineHandler(c *Ctx) *ssa.Function {
@@ -11578,6 +11594,33 @@ func findLineHandler(c *Ctx) *ssa.Function {
 				h = f
 			}
 		})
+	}
+	// the prefix test may sit in a decoding helper (`chunk, ok := t.decodeStreamLine(line)`): the handler is the outermost
+	// function that hands its own string parameter down to it
+	for lift := 0; lift < 3 && h != nil; lift++ {
+		var up *ssa.Function
+		for _, g := range c.Funcs {
+			if !strings.HasSuffix(fnPkgPath(g), pkgAnthropic) || g.Parent() != nil || g == h {
+				continue
+			}
+			eachInstr(g, func(in ssa.Instruction) {
+				cc := getCall(in)
+				if cc == nil || cc.StaticCallee() != h {
+					return
+				}
+				for _, a := range cc.Args {
+					if p, isP := a.(*ssa.Parameter); isP && p.Parent() == g {
+						if b, ok := p.Type().Underlying().(*types.Basic); ok && b.Kind() == types.String {
+							up = g
+						}
+					}
+				}
+			})
+		}
+		if up == nil {
+			break
+		}
+		h = up
 	}
 	return h
 }
@@ -12866,18 +12909,12 @@ func extraC12UnknownContentIsError(c *Ctx, r *Report) {
 		if msg == nil || res.Len() < 2 || !types.Identical(res.At(res.Len()-1).Type(), types.Universe.Lookup("error").Type()) {
 			continue
 		}
-		// assertions on msg.Content
-		isContentAssert := func(v ssa.Value) bool {
-			ex, ok := v.(*ssa.Extract)
-			if !ok || ex.Index != 1 {
-				return false
-			}
-			ta, ok := ex.Tuple.(*ssa.TypeAssert)
-			return ok && ta.CommaOk && mentionsField(ta.X, pkgAnthropic, "AnthropicMessage", "Content", 4)
-		}
+		// assertions on msg.Content — made here, or by a classifying helper that is handed the content and answers with an
+		// error when it has none of the known shapes (`blocks, err := contentBlocksOf(msg.Content)`)
+		isContent := func(v ssa.Value) bool { return mentionsField(v, pkgAnthropic, "AnthropicMessage", "Content", 4) }
 		asserts := 0
 		eachInstr(f, func(in ssa.Instruction) {
-			if ta, ok := in.(*ssa.TypeAssert); ok && ta.CommaOk && mentionsField(ta.X, pkgAnthropic, "AnthropicMessage", "Content", 4) {
+			if ta, ok := in.(*ssa.TypeAssert); ok && ta.CommaOk && isContent(ta.X) {
 				asserts++
 			}
 		})
@@ -12886,35 +12923,91 @@ func extraC12UnknownContentIsError(c *Ctx, r *Report) {
 		}
 		n++
 		key := fname(f) + ":unknown-content-is-an-error"
-		// walk the CFG taking only the FALSE edge of every assertion test
-		seen := map[*ssa.BasicBlock]bool{}
-		var bad *ssa.Return
-		var walk func(b *ssa.BasicBlock)
-		walk = func(b *ssa.BasicBlock) {
-			if seen[b] || bad != nil {
-				return
-			}
-			seen[b] = true
-			switch last := lastInstr(b).(type) {
-			case *ssa.Return:
-				if isNilConst(retResult(last, res.Len()-1)) {
-					bad = last
+		errT := types.Universe.Lookup("error").Type()
+		var failPath func(g *ssa.Function, isContent func(ssa.Value) bool, d int) *ssa.Return
+		failPath = func(g *ssa.Function, isContent func(ssa.Value) bool, d int) *ssa.Return {
+			gres := g.Signature.Results()
+			// classifier calls of g: repo helpers that receive the content and return an error
+			classifier := func(v ssa.Value) (*ssa.Call, bool) {
+				ex, ok := v.(*ssa.Extract)
+				if !ok {
+					return nil, false
 				}
-			case *ssa.If:
-				if isContentAssert(last.Cond) {
-					walk(b.Succs[1])
+				call, ok := ex.Tuple.(*ssa.Call)
+				if !ok {
+					return nil, false
+				}
+				h := call.Call.StaticCallee()
+				if h == nil || h.Blocks == nil || !c.inRepo(h) {
+					return nil, false
+				}
+				hres := h.Signature.Results()
+				if hres.Len() == 0 || ex.Index != hres.Len()-1 || !types.Identical(hres.At(hres.Len()-1).Type(), errT) {
+					return nil, false
+				}
+				for _, a := range call.Call.Args {
+					if isContent(a) {
+						return call, true
+					}
+				}
+				return nil, false
+			}
+			seen := map[*ssa.BasicBlock]bool{}
+			var bad *ssa.Return
+			var walk func(b *ssa.BasicBlock)
+			walk = func(b *ssa.BasicBlock) {
+				if seen[b] || bad != nil {
 					return
 				}
-				for _, s := range b.Succs {
-					walk(s)
-				}
-			default:
-				for _, s := range b.Succs {
-					walk(s)
+				seen[b] = true
+				switch last := lastInstr(b).(type) {
+				case *ssa.Return:
+					if isNilConst(retResult(last, gres.Len()-1)) {
+						bad = last
+					}
+				case *ssa.If:
+					// a comma-ok assertion on the content: only the failed edge continues
+					if ex, ok := last.Cond.(*ssa.Extract); ok && ex.Index == 1 {
+						if ta, ok := ex.Tuple.(*ssa.TypeAssert); ok && ta.CommaOk && isContent(ta.X) {
+							walk(b.Succs[1])
+							return
+						}
+					}
+					// err of a classifier: only the error edge continues (the helper itself is judged below)
+					if bo, ok := last.Cond.(*ssa.BinOp); ok && (bo.Op == token.NEQ || bo.Op == token.EQL) && isNilConst(bo.Y) {
+						if call, isC := classifier(bo.X); isC && d > 0 {
+							h := call.Call.StaticCallee()
+							var hp ssa.Value
+							for i, a := range call.Call.Args {
+								if isContent(a) && i < len(h.Params) {
+									hp = h.Params[i]
+								}
+							}
+							if hb := failPath(h, func(v ssa.Value) bool { return v == hp }, d-1); hb != nil {
+								bad = hb
+								return
+							}
+							if bo.Op == token.NEQ {
+								walk(b.Succs[0])
+							} else {
+								walk(b.Succs[1])
+							}
+							return
+						}
+					}
+					for _, s := range b.Succs {
+						walk(s)
+					}
+				default:
+					for _, s := range b.Succs {
+						walk(s)
+					}
 				}
 			}
+			walk(g.Blocks[0])
+			return bad
 		}
-		walk(f.Blocks[0])
+		bad := failPath(f, isContent, 2)
 		if bad != nil {
 			r.Bad("C12-R17", key, retPos(f, bad), "the conversion can return without an error although no type assertion on the message's content succeeded (null / missing / unknown content): the turn is silently left out of the upstream request instead of the request being rejected")
 		} else {
@@ -13257,19 +13350,30 @@ func extraC16PathsNotFromSiblings(c *Ctx, r *Report) {
 		return false
 	}
 	n := 0
-	eachInstr(lf, func(in ssa.Instruction) {
-		call, ok := in.(*ssa.Call)
-		if !ok || describeCall(&call.Call).Name != "ResolveURLPath" || len(call.Call.Args) < 2 {
-			return
-		}
-		n++
-		key := fmt.Sprintf("%s:path-operand-%d-own", fname(lf), n)
-		if fromTable(call.Call.Args[1], nil, 12, map[ssa.Value]bool{}) {
-			r.Bad("C16-R16", key, in.Pos(), "the path resolved for this endpoint can come out of a table the loader fills per endpoint type while it walks the list: the entry holds what the first endpoint of the type resolved to — its explicit URL included — so this endpoint's health check or model listing goes to a sibling's path or host")
-		} else {
-			r.OK("C16-R16", key, in.Pos(), "derived from the endpoint's own configuration and profile")
-		}
-	})
+	// the resolve calls of the loader, also when they sit in a helper of its package it calls per endpoint
+	var walkResolves func(f *ssa.Function, stack []*ssa.Call, d int)
+	walkResolves = func(f *ssa.Function, stack []*ssa.Call, d int) {
+		eachInstr(f, func(in ssa.Instruction) {
+			call, ok := in.(*ssa.Call)
+			if !ok {
+				return
+			}
+			if describeCall(&call.Call).Name != "ResolveURLPath" || len(call.Call.Args) < 2 {
+				if sc := call.Call.StaticCallee(); sc != nil && sc.Blocks != nil && sc.Pkg == lf.Pkg && sc.Parent() == nil && sc != f && d > 0 {
+					walkResolves(sc, append(append([]*ssa.Call{}, stack...), call), d-1)
+				}
+				return
+			}
+			n++
+			key := fmt.Sprintf("%s:path-operand-%d-own", fname(lf), n)
+			if fromTable(call.Call.Args[1], stack, 12, map[ssa.Value]bool{}) {
+				r.Bad("C16-R16", key, in.Pos(), "the path resolved for this endpoint can come out of a table the loader fills per endpoint type while it walks the list: the entry holds what the first endpoint of the type resolved to — its explicit URL included — so this endpoint's health check or model listing goes to a sibling's path or host")
+			} else {
+				r.OK("C16-R16", key, in.Pos(), "derived from the endpoint's own configuration and profile")
+			}
+		})
+	}
+	walkResolves(lf, nil, 2)
 	if n == 0 {
 		r.Undecided("C16-R16", "resolve-calls", token.NoPos, "no ResolveURLPath call in the config loader")
 	}
